@@ -117,7 +117,7 @@ def _gen_call(r: Any, dtypes: List[str]) -> Dict[str, Any]:
     nb = r.choice([1, 2, 2, 3])
     return {"op": "call", "batch": [r.choice([1, 2, 3, 5]) for _ in range(nb)], "D": r.choice([4, 6, 8]),
             "dtype": r.choice(dtypes), "mode": r.choice(["bwd", "bwd", "bwd", "fwd", "nograd"]),
-            "mask": r.randrange(1, 64), "tseed": r.randrange(1 << 30)}
+            "mask": r.randrange(1, 64), "tseed": r.randrange(1 << 30), "noncontig": r.random() < 0.2}
 
 
 def generate(seed: int, tier: str, phase: str) -> Dict[str, Any]:
@@ -481,11 +481,14 @@ def build(plan: Dict[str, Any]) -> Built:
 # execution
 
 
-def _prep(args: List[Any], mask: int, mode: str) -> List[Any]:
+def _prep(args: List[Any], mask: int, mode: str, noncontig: bool = False) -> List[Any]:
     out = []
     j = 0
     for t in args:
         c = t.detach().clone()
+        if noncontig and c.dim() >= 2 and c.is_floating_point():
+            # same values, transposed memory layout
+            c = c.transpose(0, -1).contiguous().transpose(0, -1)
         if c.is_floating_point():
             if mode == "bwd" and (mask >> (j % 6)) & 1:
                 c.requires_grad_()
@@ -657,7 +660,10 @@ def execute(plan: Dict[str, Any]) -> Dict[str, Any]:
                     where += " (first call after the failed one)"
                     res["opseq"].append("bad_call")
                 args = built.make_args(op)
-                ea = _prep(args, op["mask"], op["mode"])
+                nc = bool(op.get("noncontig"))
+                if nc:
+                    probe("noncontiguous_inputs")
+                ea = _prep(args, op["mask"], op["mode"], nc)
                 try:
                     want = _call(built.fn, built.module, ea, op["mode"], op["tseed"] % 1000)
                 except Exception as e:
@@ -665,7 +671,7 @@ def execute(plan: Dict[str, Any]) -> Dict[str, Any]:
                     fault("call.eager_fails", True)
                     continue
                 before = (counters["stats"]["unique_graphs"], counters["frames"]["total"], counters["frames"]["ok"])
-                ca = _prep(args, op["mask"], op["mode"])
+                ca = _prep(args, op["mask"], op["mode"], nc)
                 try:
                     got = _call(cfn, built.module, ca, op["mode"], op["tseed"] % 1000)
                 except Exception as e:
@@ -692,6 +698,9 @@ def execute(plan: Dict[str, Any]) -> Dict[str, Any]:
                 # pure cancellation noise (true value 0) is not comparable on its own scale
                 gscale = 0.0
                 for side in (got, want):
+                    for ot in side["outs"]:
+                        if ot.numel() and ot.is_floating_point():
+                            gscale = max(gscale, float(ot.double().abs().max()))  # upstream seeds are O(1)
                     for gt in (side["grads"] or []):
                         if gt is not None and gt.numel():
                             gscale = max(gscale, float(gt.double().abs().max()))
